@@ -353,7 +353,7 @@ def classify(view: str, d: dict) -> str:
 
 def base_world(seed: int, ci: int, layout: str, sprp: Optional[str] = None, lzma: Optional[bool] = None, dups: bool = False) -> dict:
     rng = sub_rng(seed, 'c11-base', ci)
-    opts: Dict[str, Any] = {'sprp_props': rng.randint(1, 2), 'scale': rng.choice((0, 1, 2)), 'four_commas': False}
+    opts: Dict[str, Any] = {'sprp_props': rng.choice((0, 1, 2)), 'scale': rng.choice((0, 1, 2)), 'four_commas': False}
     if dups:
         opts.update(dups=True, scale=2)
     if sprp:
@@ -395,6 +395,8 @@ def assign_and_reread(run, W1: dict, W2: dict, views: List[str], tmp: str, engin
     base_raw = c10.snapshot(b)
     if 'props' in views:
         b.props  # the static prop version is detected by reading the base lump (restriction, see RULE)
+        if not W1['sprp']['props'] and mutate is None:
+            run.count('props_assigned_over_an_empty_prop_lump')   # the version then comes from the lump's number alone
     pool = None
     if engine == 'single':
         # Parse every view of the base file first: its cross references are then object references, so replacing one
@@ -819,7 +821,7 @@ def main(run, shard=(0, 1)) -> None:
     probe.report(run)
     if shard[1] == 1:
         probe.check_reached(run)
-    run.require('saves', 'replace_all_compared', 'single_views_compared', 'fit_rejected', 'rle_rows', 'rle_rows_510_plus',
+    run.require('saves', 'props_assigned_over_an_empty_prop_lump', 'replace_all_compared', 'single_views_compared', 'fit_rejected', 'rle_rows', 'rle_rows_510_plus',
                 'static_props_roundtripped', 'ents_comma_outputs', 'ents_esc_outputs', 'c11_values_with_dups',
                 'c11_replace_all_with_dups', 'c11_single_views_with_dups')
 
